@@ -113,6 +113,12 @@ def cases(tier, seed):
             out.append({"spec": spec, "cfg": cfg, "sc": sc, "lf": [k]})
         for k in range(1, min(ns, cap) + 1):
             out.append({"spec": spec, "cfg": cfg, "sc": sc, "ls": [k]})
+        if ci % 3 == 0:
+            # with report_rcond the condition estimator issues many more solves (also transposed ones): each may fail
+            cfg_r = dict(cfg); cfg_r["params"] = {"report_rcond": True}
+            base_r = run_one(spec, cfg_r, sc)
+            for k in range(1, min(base_r.fl.n_solve, 2 * cap) + 1):
+                out.append({"spec": spec, "cfg": cfg_r, "sc": sc, "ls": [k], "base_digest": base_r.rec.digest})
         if nf > cap or ns > cap:
             CAPPED = True
         for ri, reg in enumerate(REGIONS):
@@ -182,6 +188,13 @@ def run_case(case):
             viol.append(M.V(f"C07|start_fault_not_reported|{faults[0][0]}|{what}",
                             f"failure of {faults} at the starting point gave {rec.exc or oc} instead of the initial-point error"))
         return {"outcome": "start:" + oc, "key": f"{spec['tag']}|{G.cfg_key(cfg)}|{faults}", "violations": viol, "stats": {"fired": len(fired)}}
+    if fired and all(f[0] == "solve@estimator" for f in fired):
+        # the failing solve belonged to the condition estimator (an observer): the computation must not notice at all
+        if rec.digest != case.get("base_digest"):
+            what = f"{rec.exc['cls']}: {rec.exc['msg']} ({rec.exc['site']})" if rec.exc else "different trajectory"
+            viol.append(M.V("C07|estimator_fault_perturbs", f"a failing solve inside the condition estimate (solve {case.get('ls')}) changed the run: {what}"))
+        return {"outcome": "estimator:" + oc, "key": f"{spec['tag']}|{G.cfg_key(cfg)}|rcond|{case.get('ls')}", "violations": viol,
+                "stats": {"fired": len(fired)}}
     # post-start faults
     if rec.result is None:
         e = rec.exc
